@@ -2277,17 +2277,11 @@ func (vm *Thread) growValueStack() {
 			offset := uintptr(vm.stackOffsetFromToRaw(cf.fp, oldStackPtr))
 			cf.fp = vm.stackAddRaw(newStackPtr, offset)
 		}
-		for _, upvalue := range cf.upvalues {
-			if upvalue.IsClosed() {
-				continue
-			}
-
-			offset := vm.stackOffsetFromTo(upvalue.slot, &vm.stack[0])
-			upvalue.slot = vm.stackAdd(&newStack[0], offset)
-		}
 	}
 
-	for _, upvalue := range vm.upvalues {
+	// every open upvalue is on this list exactly once,
+	// whether or not a closure that uses it is being executed
+	for upvalue := vm.openUpvalueHead; upvalue != nil; upvalue = upvalue.next {
 		if upvalue.IsClosed() {
 			continue
 		}
